@@ -1758,6 +1758,37 @@ fn mutate(r: &mut Resp, k: &FaultKind, ca: &mut Ca, env: &mut CaEnv) -> bool {
 					r.body.truncate(n);
 				}
 				"not_utf8" => r.body = vec![0xff, 0xfe, 0x2d, 0x2d, 0x80],
+				"issuer_first" => {
+					// a well-formed chain that does not start with the certificate for the CSR's key: the
+					// blocks rotated (leaf last), or a foreign certificate put in front of a lone leaf
+					let text = String::from_utf8_lossy(&r.body).to_string();
+					let mut blocks: Vec<String> = text
+						.split("-----BEGIN CERTIFICATE-----")
+						.filter(|b| b.contains("-----END CERTIFICATE-----"))
+						.map(|b| format!("-----BEGIN CERTIFICATE-----{}", b))
+						.collect();
+					if blocks.len() >= 2 {
+						let leaf = blocks.remove(0);
+						blocks.push(leaf);
+					} else {
+						let g = openssl::ec::EcGroup::from_curve_name(openssl::nid::Nid::X9_62_PRIME256V1).unwrap();
+						let k = openssl::pkey::PKey::from_ec_key(openssl::ec::EcKey::generate(&g).unwrap()).unwrap();
+						let other = issue::issue_for_private(&k, &["issuer.sim".to_string()], &[], env.wall, 90 * 86400).unwrap_or_default();
+						let first = other.split("-----BEGIN CERTIFICATE-----").nth(1).map(|b| format!("-----BEGIN CERTIFICATE-----{}", b)).unwrap_or_default();
+						blocks.insert(0, first);
+					}
+					r.body = blocks.concat().into_bytes();
+				}
+				"leaf_then_truncated" => {
+					// the right leaf, followed by a second PEM block cut in the middle
+					let text = String::from_utf8_lossy(&r.body).to_string();
+					let end = "-----END CERTIFICATE-----\n";
+					if let Some(i) = text.find(end) {
+						let leaf = &text[..i + end.len()];
+						let cut = &leaf[..leaf.len() / 2];
+						r.body = format!("{}{}", leaf, cut).into_bytes();
+					}
+				}
 				_ => {
 					// a perfectly valid chain -- for somebody else's key
 					let g =
